@@ -160,7 +160,9 @@ def Ctx.notifySubChangeP2P (c : Ctx) (t : Topic) (uid actor : Uid) (oldWant oldG
   else
     let newM := newWant &&& newGiven
     let oldM := oldWant &&& oldGiven
-    let c := if !isPresencer newM ∧ isPresencer oldM then c.presSingleOfflineOffline uid uid2 "off+dis" "" "" "" "" else c
+    let c := if !isPresencer newM ∧ isPresencer oldM then c.presSingleOfflineOffline uid uid2 "off+dis" "" "" "" ""
+      else if isPresencer newM ∧ !isPresencer oldM then c.presSingleOffline t uid newM "?unkn+en" "" "" "" "" false
+      else c
     let c := c.presDirect t { what := "acs", src := "", extra := acs, singleUser := uid, skipSid := skip }
     c.presSingleOffline t uid newM "acs" acs actor uid skip true
 
@@ -579,6 +581,7 @@ def Ctx.opSetDescP2P (c : Ctx) (a : Actor) (peer : Uid) (o : SetDescOpts) : Ctx 
   | none => c
   | some t =>
     if o.auth ≠ "" ∨ o.anon ≠ "" ∨ o.pub ≠ .absent then c.emit a.sid (ctrl 403 tn) else
+    if (t.pud? a.uid).isNone ∧ o.priv ≠ .absent then c.emit a.sid (ctrl 403 tn) else
     let (npriv, privCh) := mergeTok (t.pud a.uid).priv o.priv
     if !privCh then c.emit a.sid (ctrl 304 tn) else
     let (c, ok) := c.subsUpdate tn a.uid (fun s => { s with priv := npriv })
